@@ -10,6 +10,7 @@ From Coq Require Import ZArith List Bool.
 From S2T Require Import Lib.PyStr C13.Model C13.ProofsHtml C13.ProofsSheets C13.ProofsOds C13.ProofsTree C13.ProofsRtf.
 Import ListNotations.
 Notation length := List.length.
+Notation concat := List.concat.
 
 (* ---------------------------------------------------------------- get_dim = shape of get_table *)
 (* TableData, XlsxSheet, OdsSheet, OdtTable, RtfTable *)
@@ -83,6 +84,13 @@ Theorem C13_odp_table_flat : forall (pint : int_oracle) (skip : list str),
   forall g : fgrid, rows_nonempty g = true -> odp_table pint skip (odf_r_ftable g) = fgrid_text g.
 Proof. exact odp_table_flat. Qed.
 Print Assumptions C13_odp_table_flat.
+
+(* ODP cells leave out the paragraphs of comments (office:annotation, arbitrary content) *)
+Theorem C13_odp_cell_comment_skipped : forall (pint : int_oracle) (skip : list str) aa ax acs al (p : Model.para),
+  mem_str TEXT_SPAN skip = false ->
+  odp_cell pint skip (E TABLE_CELL [Elem OFFICE_ANNOTATION aa ax acs al; odf_r_para p]) = concat p.
+Proof. exact odp_cell_comment_skipped. Qed.
+Print Assumptions C13_odp_cell_comment_skipped.
 
 (* ---------------------------------------------------------------- HTML *)
 Theorem C13_html_tables_roundtrip : forall (is_ws : N -> bool) (w : str) (d : list hblock),
@@ -252,6 +260,18 @@ Theorem C13_rtf_tables_single : forall is_ws is_word : N -> bool,
   rtf_tables is_ws is_word (rtf_r_doc [RTable g]) = [rtf_pad_rows g].
 Proof. exact rtf_tables_single. Qed.
 Print Assumptions C13_rtf_tables_single.
+
+(* the same for every way a row can be glued to the next one — \row directly followed by \trowd
+   (END offset of \row == START offset of \trowd), by a space, a newline, a group boundary "}{" or
+   \pard — and with empty cells written as a bare \cell *)
+Theorem C13_rtf_tables_single_gen : forall is_ws is_word : N -> bool,
+  is_ws 32 = true -> is_ws 9 = true -> is_ws 10 = true -> is_ws 11 = true -> is_ws 12 = true ->
+  is_word 32 = false -> is_word 92 = false -> is_word 10 = false -> is_word 125 = false ->
+  forall (tight : bool) (sep : str) (g : list (list str)), rtf_row_sep_ok sep = true -> g <> [] ->
+  forallb (fun r => negb (is_nil r)) g = true -> forallb (forallb (rtf_plain is_ws)) g = true ->
+  rtf_tables is_ws is_word (rtf_r_doc_gen tight sep g) = [rtf_pad_rows g].
+Proof. exact rtf_tables_single_gen. Qed.
+Print Assumptions C13_rtf_tables_single_gen.
 
 (* padding is the identity on a rectangular grid, so r x c comes back as r x c, cell by cell *)
 Theorem C13_rtf_pad_rows_id : forall (g : list (list str)) (c : nat),
